@@ -2,10 +2,13 @@ package main
 
 import (
 	"context"
+	"encoding/json"
 	"fmt"
+	"os"
 	"strings"
 
 	log "github.com/go-spring/log"
+	zzvrt "github.com/go-spring/log/zzvrt"
 )
 
 // ---------------------------------------------------------------------------------------------
@@ -89,9 +92,17 @@ func (m *c16Model) sinksFor(via string) []string {
 
 type c16Case struct {
 	Ops []int `json:"ops"`
+	// Seeds[i] (default 0) is the map-iteration order in force while operation i runs (zzvrt.MapOrderSeed:
+	// all permutations of maps of <= 3 keys for 0..5) - what a Refresh that fails half-way leaves bound
+	// depends on that order
+	Seeds []int `json:"map_order_seeds,omitempty"`
 }
 
-func c16Check(c c16Case) (string, []Violation, int) {
+func c16Check(c c16Case) (string, []Violation, int) { return c16Run(c, nil) }
+
+// c16Run evaluates one sequence; afterOps (if any) is called when the operations of the sequence have
+// been applied, before the fixed probe, with the state of the lifecycle model.
+func c16Run(c c16Case, afterOps func(model string)) (string, []Violation, int) {
 	// reset, forgetting the tag and the handles a previous sequence created
 	log.VerifReset()
 	confReset2()
@@ -174,8 +185,13 @@ func c16Check(c c16Case) (string, []Violation, int) {
 			}
 		}
 	}
+	defer func() { zzvrt.MapOrderSeed = 0 }()
 	for i, o := range c.Ops {
 		step := fmt.Sprintf("step %d %s", i, opNames[o])
+		zzvrt.MapOrderSeed = 0
+		if i < len(c.Seeds) {
+			zzvrt.MapOrderSeed = c.Seeds[i]
+		}
 		switch o {
 		case opRefreshA:
 			refresh(step, c16ConfA(), "A", false, false, false)
@@ -255,6 +271,16 @@ func c16Check(c c16Case) (string, []Violation, int) {
 			}
 		}
 	}
+	zzvrt.MapOrderSeed = 0
+	if afterOps != nil {
+		hs := ""
+		for _, h := range []string{"aux", "ghost"} {
+			if handles[h] != nil {
+				hs += h + ","
+			}
+		}
+		afterOps(fmt.Sprintf("%+v handles=%s newTag=%v", *m, hs, newTag != nil))
+	}
 	// fixed probe
 	logVia(tagVfx, "_vfx_t1", "probe")
 	logVia(tagVfy, "_vfy_t1", "probe")
@@ -329,6 +355,153 @@ func confReset2() {
 	consoleBuf.Reset()
 	log.Stdout = &consoleBuf
 	log.TimeNow = nil
+}
+
+// c16/reachable-states: explicit-state breadth-first search over the REAL package. A state is reached by
+// replaying a shortest operation sequence on a reset package; its identity is the canonical deep hash of
+// everything reachable from the package-level variables (zzvrt.DeepHash) together with the state of the
+// lifecycle model. Every transition (state, operation) is evaluated with the full oracle of c16Check
+// (step-by-step model comparison + fixed probe + Destroy + re-Refresh); a successor is expanded only if
+// its identity is new. When the frontier becomes empty the search has covered every sequence of ANY
+// length over the alphabet - up to the abstraction of the state identity (pool and cache contents,
+// channel contents and closure variables are not part of it).
+func init() {
+	parts = append(parts, partDef{prop: "C16", name: "c16/reachable-states", tiers: "qt", run: func(r *runCtx, p *Part) {
+		if r.shard != 0 {
+			return
+		}
+		maxDepth := 12
+		p.Bounds = fmt.Sprintf("breadth-first search over %d operations (each Refresh under every iteration order of maps of <= 3 keys: 6 variants) from the reset package, successors deduplicated by (deep hash of the package state, model state), depth <= %d or until no new state appears", nOps, maxDepth)
+		seen := map[string]bool{}
+		type node struct{ ops, seeds []int }
+		nSeeds := func(o int) int {
+			if o <= opRefreshBadProp {
+				return 6 // the five Refresh operations: every iteration order of maps of <= 3 keys
+			}
+			return 1
+		}
+		eval := func(seq, seeds []int) string {
+			key := ""
+			cs := c16Case{Ops: seq, Seeds: seeds}
+			arm(p, "c16/reachable-states", cs)
+			obs, vs, tr := c16Run(cs, func(model string) {
+				key = fmt.Sprintf("%016x|%s", log.VerifStateHash(func(n string) bool { return n == "Stdout" }), model)
+			})
+			disarm()
+			p.Executions++
+			p.Transitions += int64(tr)
+			p.addObs(obs)
+			for _, v := range vs {
+				p.fail(v, cs)
+			}
+			return key
+		}
+		seen[eval(nil, nil)] = true
+		frontier := []node{{}}
+		depth := 0
+		perDepth := []int{1}
+		for depth < maxDepth && len(frontier) > 0 && !p.Capped {
+			depth++
+			var next []node
+			for _, h := range frontier {
+				if r.expired() {
+					p.Capped = true
+					break
+				}
+				for o := 0; o < nOps; o++ {
+					for sd := 0; sd < nSeeds(o); sd++ {
+						seq := append(append([]int(nil), h.ops...), o)
+						seeds := append(append([]int(nil), h.seeds...), sd)
+						if k := eval(seq, seeds); !seen[k] {
+							seen[k] = true
+							next = append(next, node{seq, seeds})
+						}
+					}
+				}
+			}
+			frontier = next
+			perDepth = append(perDepth, len(next))
+		}
+		// cross-check of the deduplication: every sequence of length <= 3 (thorough 4), enumerated without any
+		// pruning, must end in a state the search has expanded
+		crossLen, crossed := 3, 0
+		if r.tier == "thorough" {
+			crossLen = 4
+		}
+		if len(frontier) == 0 && !p.Capped {
+			var rec func(cur, seeds []int)
+			rec = func(cur, seeds []int) {
+				if p.Capped {
+					return
+				}
+				if len(cur) > 0 {
+					crossed++
+					if k := eval(cur, seeds); !seen[k] {
+						if os.Getenv("VERIF_HASHTRACE") != "" {
+							k2 := eval(cur, seeds)
+							fmt.Fprintf(os.Stderr, "MISMATCH %v: key=%s again=%s\n", cur, k, k2)
+							for sk := range seen {
+								if strings.SplitN(sk, "|", 2)[1] == strings.SplitN(k, "|", 2)[1] {
+									fmt.Fprintf(os.Stderr, "   seen with same model: %s\n", sk)
+								}
+							}
+						}
+						p.fail(Violation{Clause: "state-search-incomplete", Key: fmt.Sprint(cur), Detail: "harness error: this sequence ends in a state the breadth-first search never expanded (state identity too coarse)"}, c16Case{Ops: cur, Seeds: seeds})
+					}
+					if crossed%256 == 0 && r.expired() {
+						p.Capped = true
+					}
+				}
+				if len(cur) < crossLen {
+					for o := 0; o < nOps; o++ {
+						ns := nSeeds(o)
+						if len(cur) >= 2 {
+							ns = min(ns, 2) // the third operation: ascending and descending order only
+						}
+						for sd := 0; sd < ns; sd++ {
+							rec(append(append([]int(nil), cur...), o), append(append([]int(nil), seeds...), sd))
+						}
+					}
+				}
+			}
+			rec(nil, nil)
+		}
+		p.States = int64(len(seen))
+		closed := len(frontier) == 0 && !p.Capped
+		p.Extra = map[string]any{"distinct_states": len(seen), "new_states_per_depth": fmt.Sprint(perDepth), "fixpoint_reached": closed, "depth_completed": depth, "unpruned_sequences_cross_checked": crossed}
+		if !closed {
+			p.Bounds += fmt.Sprintf(" [stopped at depth %d with %d unexpanded states]", depth, len(frontier))
+		} else {
+			p.Bounds += fmt.Sprintf(" [fixpoint: %d states, no new state after depth %d: every longer sequence ends in a state already expanded]", len(seen), depth-1)
+		}
+		if len(p.Samples) == 0 {
+			p.Samples = append(p.Samples, map[string]any{"part": "c16/reachable-states", "new_states_per_depth": perDepth})
+		}
+	}, replay: func(raw json.RawMessage) []Violation {
+		var c c16Case
+		json.Unmarshal(raw, &c)
+		obs, vs, _ := c16Check(c)
+		fmt.Printf("case: %s\nobservation: %s\n", raw, obs)
+		if os.Getenv("VERIF_HASHTRACE") != "" {
+			// the state identity of this sequence, computed several times: lines that differ between runs
+			var first []string
+			for i := 0; i < 6; i++ {
+				var tr []string
+				c16Run(c, func(string) { _, tr = log.VerifStateHashTrace(func(n string) bool { return n == "Stdout" }) })
+				if first == nil {
+					first = tr
+					continue
+				}
+				for j := 0; j < len(tr) && j < len(first); j++ {
+					if tr[j] != first[j] {
+						fmt.Printf("run %d differs at token %d: %q vs %q\n", i, j, first[j], tr[j])
+						break
+					}
+				}
+			}
+		}
+		return vs
+	}})
 }
 
 func init() {
